@@ -204,10 +204,11 @@ def renderNode (I : Data D) (env : Env D) (dot : Val D) : Node → Option (List 
     | some (.data d) =>
       match I.elems d with
       | none => none
-      | some [] => (renderList I env dot els).map (fun out => (out, env))
-      | some (x :: xs) =>
-        (rangeLoop (fun i y => renderList I (bindOpt xv y (bindOpt iv (.int i) env)) y body) 0 (x :: xs)).map
-          (fun out => (out, env))
+      | some xs =>
+        if xs.isEmpty then (renderList I env dot els).map (fun out => (out, env))
+        else
+          (rangeLoop (fun i y => renderList I (bindOpt xv y (bindOpt iv (.int i) env)) y body) 0 xs).map
+            (fun out => (out, env))
     | _ => none
 /-- a list of nodes: the outputs one after the other, declarations carried along -/
 def renderList (I : Data D) (env : Env D) (dot : Val D) : List Node → Option (List String)
@@ -226,6 +227,183 @@ def render (I : Data D) (root : Val D) (vars : Env D) (ns : List Node) : Option 
   renderList I (vars ++ [("$", root)]) root ns
 
 /-! ### facts about the renderer that do not depend on the template -/
+
+/-! #### the equations of the renderer in `Option.bind` form (what `simp` computes with) -/
+
+def fieldOf (I : Data D) (f : String) : Val D → Option (Val D)
+  | .data d => I.field d f
+  | _ => none
+
+def methodOf (I : Data D) (m : String) : Val D → List (Val D) → Option (Val D)
+  | .data d, vs => I.method d m vs
+  | _, _ => none
+
+def elemsOf (I : Data D) : Val D → Option (List (Val D))
+  | .data d => I.elems d
+  | _ => none
+
+@[simp] theorem fieldOf_data (I : Data D) (f : String) (d : D) : fieldOf I f (.data d) = I.field d f := rfl
+@[simp] theorem methodOf_data (I : Data D) (m : String) (d : D) (vs : List (Val D)) :
+    methodOf I m (.data d) vs = I.method d m vs := rfl
+@[simp] theorem elemsOf_data (I : Data D) (d : D) : elemsOf I (.data d) = I.elems d := rfl
+
+theorem lookup_cons (y : String) (v : Val D) (rest : Env D) (x : String) :
+    lookup ((y, v) :: rest) x = if y == x then some v else lookup rest x := rfl
+
+theorem evalExpr_dot (I : Data D) (env : Env D) (dot : Val D) : evalExpr I env dot .dot = some dot := by
+  simp [evalExpr]
+theorem evalExpr_var (I : Data D) (env : Env D) (dot : Val D) (x : String) :
+    evalExpr I env dot (.var x) = lookup env x := by simp [evalExpr]
+theorem evalExpr_str (I : Data D) (env : Env D) (dot : Val D) (s : String) :
+    evalExpr I env dot (.str s) = some (.str s) := by simp [evalExpr]
+theorem evalExpr_int (I : Data D) (env : Env D) (dot : Val D) (n : Int) :
+    evalExpr I env dot (.int n) = some (.int n) := by simp [evalExpr]
+theorem evalExpr_bool (I : Data D) (env : Env D) (dot : Val D) (b : Bool) :
+    evalExpr I env dot (.bool b) = some (.bool b) := by simp [evalExpr]
+
+theorem evalExpr_field (I : Data D) (env : Env D) (dot : Val D) (e : Expr) (f : String) :
+    evalExpr I env dot (.field e f) = (evalExpr I env dot e).bind (fieldOf I f) := by
+  rw [evalExpr]
+  cases evalExpr I env dot e with
+  | none => rfl
+  | some v => cases v <;> rfl
+
+theorem evalExpr_call (I : Data D) (env : Env D) (dot : Val D) (e : Expr) (m : String) (args : List Expr) :
+    evalExpr I env dot (.call e m args) =
+      (evalExpr I env dot e).bind fun v => (evalArgs I env dot args).bind fun vs => methodOf I m v vs := by
+  rw [evalExpr]
+  cases evalExpr I env dot e with
+  | none => rfl
+  | some v => cases v <;> cases evalArgs I env dot args <;> rfl
+
+theorem evalExpr_fn (I : Data D) (env : Env D) (dot : Val D) (name : String) (args : List Expr) :
+    evalExpr I env dot (.fn name args) = (evalArgs I env dot args).bind (builtin I name) := by
+  rw [evalExpr]
+  cases evalArgs I env dot args <;> rfl
+
+theorem evalArgs_nil (I : Data D) (env : Env D) (dot : Val D) : evalArgs I env dot [] = some [] := by
+  simp [evalArgs]
+
+theorem evalArgs_cons (I : Data D) (env : Env D) (dot : Val D) (e : Expr) (es : List Expr) :
+    evalArgs I env dot (e :: es) =
+      (evalExpr I env dot e).bind fun v => (evalArgs I env dot es).map (fun vs => v :: vs) := by
+  rw [evalArgs]
+  cases evalExpr I env dot e <;> cases evalArgs I env dot es <;> rfl
+
+theorem builtin_index (I : Data D) (x : Val D) (idx : List (Val D)) :
+    builtin I "index" (x :: idx) = indexVal I x idx := by simp [builtin]
+theorem builtin_len (I : Data D) (d : D) :
+    builtin I "len" [.data d] = (I.elems d).map (fun xs => .int xs.length) := by simp [builtin]
+theorem builtin_gt (I : Data D) (a b : Int) :
+    builtin I "gt" [.int a, .int b] = some (.bool (decide (a > b))) := by simp [builtin]
+
+theorem renderList_nil (I : Data D) (env : Env D) (dot : Val D) : renderList I env dot [] = some [] := by
+  simp [renderList]
+
+theorem renderList_text (I : Data D) (env : Env D) (dot : Val D) (s : String) (ns : List Node) :
+    renderList I env dot (.text s :: ns) = (renderList I env dot ns).map (fun rest => s :: rest) := by
+  rw [renderList, renderNode]
+  simp only []
+  cases renderList I env dot ns <;> rfl
+
+theorem renderList_action (I : Data D) (env : Env D) (dot : Val D) (e : Expr) (ns : List Node) :
+    renderList I env dot (.action e :: ns) =
+      (evalExpr I env dot e).bind fun v => (printVal I v).bind fun s =>
+        (renderList I env dot ns).map (fun rest => s :: rest) := by
+  rw [renderList, renderNode]
+  cases evalExpr I env dot e with
+  | none => rfl
+  | some v =>
+    simp only [Option.bind_some]
+    cases printVal I v with
+    | none => rfl
+    | some s => simp only [Option.bind_some]; cases renderList I env dot ns <;> rfl
+
+theorem renderList_assign (I : Data D) (env : Env D) (dot : Val D) (x : String) (e : Expr) (ns : List Node) :
+    renderList I env dot (.assign x e :: ns) =
+      (evalExpr I env dot e).bind fun v => renderList I ((x, v) :: env) dot ns := by
+  rw [renderList, renderNode]
+  cases evalExpr I env dot e with
+  | none => rfl
+  | some v => simp only [Option.bind_some]; cases renderList I ((x, v) :: env) dot ns <;> simp
+
+private theorem seq_eq (a : Option (List String)) (env : Env D) (k : Env D → Option (List String)) :
+    (match a.map (fun out => (out, env)) with
+      | none => none
+      | some (out, env') =>
+        match k env' with
+        | none => none
+        | some rest => some (out ++ rest))
+      = a.bind fun out => (k env).map (fun rest => out ++ rest) := by
+  cases a with
+  | none => rfl
+  | some out => simp only [Option.map_some, Option.bind_some]; cases k env <;> rfl
+
+theorem renderList_ite (I : Data D) (env : Env D) (dot : Val D) (c : Expr) (thn els ns : List Node) :
+    renderList I env dot (.ite c thn els :: ns) =
+      (evalExpr I env dot c).bind fun v => (truthVal I v).bind fun b =>
+        (if b then renderList I env dot thn else renderList I env dot els).bind fun out =>
+          (renderList I env dot ns).map (fun rest => out ++ rest) := by
+  rw [renderList, renderNode]
+  cases evalExpr I env dot c with
+  | none => rfl
+  | some v =>
+    simp only [Option.bind_some]
+    cases truthVal I v with
+    | none => rfl
+    | some b =>
+      cases b
+      · simp only [Option.bind_some, Bool.false_eq_true, if_false]
+        exact seq_eq _ env (fun env' => renderList I env' dot ns)
+      · simp only [Option.bind_some, if_true]
+        exact seq_eq _ env (fun env' => renderList I env' dot ns)
+
+theorem renderList_with (I : Data D) (env : Env D) (dot : Val D) (e : Expr) (thn els ns : List Node) :
+    renderList I env dot (.withN e thn els :: ns) =
+      (evalExpr I env dot e).bind fun v => (truthVal I v).bind fun b =>
+        (if b then renderList I env v thn else renderList I env dot els).bind fun out =>
+          (renderList I env dot ns).map (fun rest => out ++ rest) := by
+  rw [renderList, renderNode]
+  cases evalExpr I env dot e with
+  | none => rfl
+  | some v =>
+    simp only [Option.bind_some]
+    cases truthVal I v with
+    | none => rfl
+    | some b =>
+      cases b
+      · simp only [Option.bind_some, Bool.false_eq_true, if_false]
+        exact seq_eq _ env (fun env' => renderList I env' dot ns)
+      · simp only [Option.bind_some, if_true]
+        exact seq_eq _ env (fun env' => renderList I env' dot ns)
+
+/-- a `range` without `{{else}}` needs no look at whether the list is empty -/
+theorem renderList_range (I : Data D) (env : Env D) (dot : Val D) (iv xv : Option String) (e : Expr)
+    (body ns : List Node) :
+    renderList I env dot (.range iv xv e body [] :: ns) =
+      (evalExpr I env dot e).bind fun v => (elemsOf I v).bind fun xs =>
+        (rangeLoop (fun i y => renderList I (bindOpt xv y (bindOpt iv (.int i) env)) y body) 0 xs).bind fun out =>
+          (renderList I env dot ns).map (fun rest => out ++ rest) := by
+  rw [renderList, renderNode]
+  cases evalExpr I env dot e with
+  | none => rfl
+  | some v =>
+    cases v with
+    | data d =>
+      simp only [Option.bind_some, elemsOf_data]
+      cases I.elems d with
+      | none => rfl
+      | some xs =>
+        cases xs with
+        | nil =>
+          simp only [Option.bind_some, List.isEmpty_nil, if_true, rangeLoop, renderList, Option.map_some]
+          cases renderList I env dot ns <;> simp
+        | cons x xs =>
+          simp only [Option.bind_some, List.isEmpty_cons, Bool.false_eq_true, if_false]
+          exact seq_eq _ env (fun env' => renderList I env' dot ns)
+    | str _ => rfl
+    | int _ => rfl
+    | bool _ => rfl
 
 /-- a `range` whose body writes `g i x` at every element writes the pieces one after the other -/
 theorem rangeLoop_eq (f : Nat → Val D → Option (List String)) (g : Nat → Val D → List String) :
